@@ -105,10 +105,15 @@ namespace vh::pk {
         ini("pika.max_idle_backoff_time", g("max_idle_backoff_time", 1000));
         if (g("mode", -1) >= 0) ini("pika.default_scheduler_mode", g("mode"));
         ini("pika.stacks.use_guard_pages", g("guard_pages", 0));
-        if (P.has(pre + "stack_small")) ini("pika.stacks.small_size", g("stack_small"));
-        if (P.has(pre + "stack_medium")) ini("pika.stacks.medium_size", g("stack_medium"));
-        if (P.has(pre + "stack_large")) ini("pika.stacks.large_size", g("stack_large"));
-        if (P.has(pre + "stack_huge")) ini("pika.stacks.huge_size", g("stack_huge"));
+        auto ini_size = [&](char const* k, int64_t v) {
+            int64_t const notation = g("stack_notation", 0);
+            a.push_back(sfmt(notation == 1 ? "--pika:ini=%s=0x%llx" : notation == 2 ? "--pika:ini=%s=0%llo" : "--pika:ini=%s=%lld", k,
+                (long long) v));
+        };
+        if (P.has(pre + "stack_small")) ini_size("pika.stacks.small_size", g("stack_small"));
+        if (P.has(pre + "stack_medium")) ini_size("pika.stacks.medium_size", g("stack_medium"));
+        if (P.has(pre + "stack_large")) ini_size("pika.stacks.large_size", g("stack_large"));
+        if (P.has(pre + "stack_huge")) ini_size("pika.stacks.huge_size", g("stack_huge"));
         if (P.has(pre + "mpi_completion_mode")) ini("pika.mpi.completion_mode", g("mpi_completion_mode"));
         if (P.has(pre + "mpi_enable_pool")) ini("pika.mpi.enable_pool", g("mpi_enable_pool"));
         a.push_back("--pika:ini=pika.diagnostics_on_terminate=0");
